@@ -290,6 +290,10 @@ def case(ctx, rnd, i):
                 U.append(mt.create({"k": v}))
         else:
             U.append(mt.create())
+        if getattr(mt, "instance", None) is not None and mt.attrs and rnd.random() < 0.7:
+            # the type's shared all-defaults instance (what schema.mark(name) returns); explore()
+            # pairs it with equal marks that are separate objects
+            U.append(mt.create())
     ctx.count("random_configs")
     ctx.sample({"marks": {k: dict(v) for k, v in marks.items()}, "node_marks": node_marks})
     explore(ctx, S, rs, spec, U, {"random": True}, rnd=rnd, maxsteps=1500)
